@@ -326,4 +326,42 @@ bool skinShape(NifFile& nif, NiShape* shape, size_t nbones, const std::function<
 	nif.UpdateSkinPartitions(shape);
 	return true;
 }
+void addStripsShape(NifFile& nif) {
+	// an NiTriStrips shape: a 3x3 grid stitched into one strip with degenerate stitches, plus a second plain strip
+	auto data = std::make_unique<NiTriStripsData>();
+	std::vector<Vector3> v;
+	std::vector<Vector2> uv;
+	std::vector<Vector3> n;
+	for (int y = 0; y < 3; y++)
+		for (int x = 0; x < 3; x++) {
+			v.emplace_back(float(x), float(y), 5.0f);
+			uv.emplace_back(0.5f * float(x), 0.5f * float(y));
+			n.emplace_back(0.0f, 0.0f, 1.0f);
+		}
+	data->Create(nif.GetHeader().GetVersion(), &v, nullptr, &uv, &n);
+	// (a short strip first: the winding of a strip's triangles depends on the position inside that strip only)
+	data->stripsInfo.points = {{0, 1, 3}, {0, 3, 1, 4, 2, 5, 5, 3, 3, 6, 4, 7, 5, 8}, {4, 5, 7, 8}};
+	data->stripsInfo.stripLengths.clear();
+	for (auto& p : data->stripsInfo.points) {
+		uint16_t l = (uint16_t) p.size();
+		data->stripsInfo.stripLengths.push_back(l);
+	}
+	data->stripsInfo.hasPoints = true;
+	auto& hdr = nif.GetHeader();
+	uint32_t did = hdr.AddBlock(std::move(data));
+	auto shape = std::make_unique<NiTriStrips>();
+	shape->name.get() = "Strips";
+	shape->DataRef()->index = did;
+	if (hdr.GetVersion().Stream() >= 83) { // (Skyrim and later: the shader hangs on the shape itself)
+		auto tex = std::make_unique<BSShaderTextureSet>(hdr.GetVersion());
+		auto sh = std::make_unique<BSLightingShaderProperty>(hdr.GetVersion());
+		sh->TextureSetRef()->index = hdr.AddBlock(std::move(tex));
+		shape->ShaderPropertyRef()->index = hdr.AddBlock(std::move(sh));
+	}
+	uint32_t sid = hdr.AddBlock(std::move(shape));
+	nif.GetRootNode()->childRefs.AddBlockRef(sid);
+	nif.LinkGeomData();
+}
+
+
 } // namespace vh
